@@ -174,7 +174,8 @@ def run(R, tier, seed, driver_ok):
                     est = LFDA(embedding_type=emb, k=kopt, n_components=nc).fit(Xl, yl)
             except Exception as e:
                 R.violation(f'LFDA/raises-{type(e).__name__}', f'LFDA raised {type(e).__name__}: {str(e)[:150]}', case); continue
-            keff = min(7, d - 1) if kopt is None else (d - 1 if kopt >= d else int(kopt))
+            kmax = max(d - 1, 1)
+            keff = min(7, kmax) if kopt is None else (kmax if kopt > kmax else int(kopt))
             dim = d if nc is None else nc
             Mref, Sw, Sb, vals, gap = lfda_reference(Xl, yl, keff, dim, emb)
             L = np.asarray(est.components_)
